@@ -138,6 +138,12 @@ func (s *Server) describeBatch(c *conn, kind string, msgs []fmsg) Batch {
 		}
 	case "extended":
 		parsed, bound := map[string]string{}, map[string]string{}
+		b.PrepareOnly = true
+		for i := range msgs {
+			if msgs[i].typ == 'E' {
+				b.PrepareOnly = false
+			}
+		}
 		for i := range msgs {
 			m := &msgs[i]
 			var err error
@@ -275,6 +281,11 @@ func (s *Server) process(c *conn, b Batch, msgs []fmsg, fault Fault) (out batchO
 			s.dropLocked(c, b.Seq)
 			return
 		}
+		if c.tx != nil && c.tx.explicit && len(b.SQL) > 0 && endsTx(b.SQL[0]) {
+			// An error raised by COMMIT (or ROLLBACK) itself ends the transaction block, as in Postgres: nothing is
+			// committed and the session is idle again.
+			s.endTx(c, "rollback", b.Seq)
+		}
 		s.sendErr(c, w, errInjected, "", b.Seq)
 		s.finishBatch(c, w, b.Seq)
 		return
@@ -389,6 +400,16 @@ func (s *Server) copyDone(c *conn, w *wbuf, m fmsg, seq int, lk *lockHeld) {
 		w.complete(res.tag)
 	}
 	s.finishBatch(c, w, seq)
+}
+
+// endsTx reports whether sql is a single COMMIT / END / ROLLBACK / ABORT statement.
+func endsTx(sql string) bool {
+	raws, err := splitStatements(sql)
+	if err != nil || len(raws) != 1 {
+		return false
+	}
+	ast, err := parseStatement(raws[0])
+	return err == nil && isTxControl(ast)
 }
 
 func isTxControl(ast any) bool {
